@@ -175,8 +175,22 @@ func (w *CronWorker) refreshUpdatedJobConfigs(now time.Time) {
 	// Perform at most 1000 flushes per iteration to prevent backlogging.
 	for flushes < 1000 {
 		select {
-		case jobConfig := <-w.updatedConfigs:
+		case update := <-w.updatedConfigs:
 			flushes++
+			jobConfig := update.jobConfig
+
+			// The JobConfig was added. Unless it is already known (i.e. it is one of
+			// the initial notifications for a JobConfig we had started up with), start
+			// scheduling it the same way as on startup.
+			if update.added {
+				if _, err := w.schedule.Add(jobConfig); err != nil {
+					klog.ErrorS(err, "croncontroller: cannot add new job config to heap",
+						"namespace", jobConfig.Namespace,
+						"name", jobConfig.Name,
+					)
+				}
+				continue
+			}
 
 			// Delete and add it back to the heap. We use the current time as the reference
 			// time, assuming that its previous schedule time is in the future.
@@ -187,6 +201,14 @@ func (w *CronWorker) refreshUpdatedJobConfigs(now time.Time) {
 				)
 				continue
 			}
+
+			// The JobConfig no longer exists (or was since replaced by another one with
+			// the same name, which will be added on its own), so it stays removed.
+			if current, err := w.jobconfigInformer.Lister().JobConfigs(jobConfig.Namespace).Get(jobConfig.Name); err != nil ||
+				current.UID != jobConfig.UID {
+				continue
+			}
+
 			if _, err := w.schedule.Bump(jobConfig, now); err != nil {
 				klog.ErrorS(err, "croncontroller: cannot bump updated job config in heap",
 					"namespace", jobConfig.Namespace,
